@@ -82,6 +82,106 @@ pub fn gen_base(rng: &mut Rng, tier: Tier) -> Scenario {
     sc
 }
 
+pub const STEADY_KINDS: &[&str] = &["distinct", "distinct_nested", "same", "comments", "attrs", "nth", "text_nodes", "foreign"];
+/// Allowed growth of the driving thread's live heap between the first quarter and the end of a
+/// steady stream (amortised buffer growth, hash map rehash slack): independent of its length.
+const STEADY_SLACK: isize = 24 * 1024;
+
+fn steady_scenario(kind: &str, n: usize) -> Scenario {
+    let mut d = String::new();
+    let mut handlers = vec![wl::el_observer("*")];
+    match kind {
+        "distinct" => {
+            for i in 0..n {
+                d.push_str(&format!("<w{i}></w{i}>"));
+            }
+        }
+        "distinct_nested" => {
+            d.push_str("<div>");
+            for i in 0..n {
+                d.push_str(&format!("<x-{i}><b></b></x-{i}>"));
+            }
+            d.push_str("</div>");
+        }
+        "same" => {
+            for _ in 0..n {
+                d.push_str("<p class=x>t</p>");
+            }
+            handlers = vec![wl::el_observer("p.x"), HandlerSpec::Text { sel: Some("p".into()), ops: vec![], when: TextWhen::Always }];
+        }
+        "comments" => {
+            for i in 0..n {
+                d.push_str(&format!("<!--c{i}-->"));
+            }
+            handlers = vec![HandlerSpec::Comment { sel: None, ops: vec![] }];
+        }
+        "attrs" => {
+            for i in 0..n {
+                d.push_str(&format!("<a a{i}=v{i} href=x{i}>x</a>"));
+            }
+            handlers = vec![wl::el_observer("a[href]")];
+        }
+        "nth" => {
+            d.push_str("<ul>");
+            for i in 0..n {
+                d.push_str(&format!("<li></li><y-{}></y-{}>", i % 97, i % 97));
+            }
+            d.push_str("</ul>");
+            handlers = vec![wl::el_observer("li:nth-of-type(3n+1)"), wl::el_observer("ul > :nth-child(2)")];
+        }
+        "text_nodes" => {
+            for i in 0..n {
+                d.push_str(&format!("t{i}&amp;<br>"));
+            }
+            handlers = vec![HandlerSpec::Text { sel: None, ops: vec![], when: TextWhen::Always }];
+        }
+        _ => {
+            for i in 0..n {
+                d.push_str(&format!("<svg><g id=i{i}><path/></g><title>t</title></svg>"));
+            }
+        }
+    }
+    let mut sc = Scenario::new(d.into_bytes());
+    sc.handlers = handlers;
+    sc.prealloc = 0;
+    let n = sc.doc.len();
+    sc.cuts = (1..n / 509).map(|k| k * 509).collect();
+    sc
+}
+
+fn check_steady(case: &Case, st: &mut Stats) -> CheckResult {
+    let mut it = case.mode.split(':');
+    let (_, kind, n) = (it.next(), it.next().unwrap_or("distinct"), it.next().and_then(|s| s.parse::<usize>().ok()).unwrap_or(6000));
+    let sc = steady_scenario(kind, n);
+    let h = driver::run_opts(&sc, &driver::RunOpts { record_charges: false, light: true, record_positions: false }).map_err(HarnessError)?;
+    st.evaluations += 1;
+    st.distinct.insert(crate::rng::hash_str(&case.mode));
+    if !h.is_ok() {
+        return Ok(Err(Fail::new("C10.no_panic", format!("steady stream {kind}: {:?}", h.outcome))));
+    }
+    let v = &h.live_after_write;
+    if v.len() < 8 {
+        return Err(HarnessError("steady stream too short".into()));
+    }
+    let early = v[v.len() / 4];
+    let late = v[v.len() - 1];
+    let growth = late - early;
+    if growth > STEADY_SLACK {
+        return Ok(Err(Fail::new(
+            "C10.unbounded_growth",
+            format!(
+                "steady stream `{kind}` ({} bytes in {} writes, every construct closed): the rewriter's live heap grew by {growth} bytes between write #{} and the last write (allowed slack {STEADY_SLACK}); accounted usage at the end {}",
+                sc.doc.len(),
+                v.len(),
+                v.len() / 4,
+                h.usage_after_write.last().copied().unwrap_or(0)
+            ),
+        )));
+    }
+    st.bump("c10.steady_state_bounded");
+    Ok(Ok(()))
+}
+
 impl Property for C10 {
     fn id(&self) -> &'static str {
         "C10"
@@ -110,6 +210,16 @@ impl Property for C10 {
     }
 
     fn explore(&self, rng: &mut Rng, tier: Tier, ex: &mut Explorer<'_>) {
+        if rng.chance(1, 30) {
+            // steady state: a long stream of *closed* constructs must not make the rewriter's
+            // real heap grow with the length of the stream (counting allocator, not the limiter)
+            let kind = rng.pick(STEADY_KINDS);
+            let n = if tier == Tier::Quick { 6000 } else { 30000 };
+            let mut c = Case::of(Scenario::new(vec![]));
+            c.mode = format!("steady:{kind}:{n}");
+            ex.stats.bump("c10.steady_state_measurements");
+            ex.check(c);
+        }
         let base = gen_base(rng, tier);
         let Ok(pre) = faults::prerun(&base) else { return };
         let cap = if tier == Tier::Quick { 60 } else { 200 };
@@ -137,6 +247,9 @@ impl Property for C10 {
     }
 
     fn check(&self, case: &Case, st: &mut Stats) -> CheckResult {
+        if case.mode.starts_with("steady:") {
+            return check_steady(case, st);
+        }
         let sc = &case.sc;
         let Some(m) = sc.max_mem else {
             return Err(HarnessError("C10 case needs a limit".into()));
